@@ -12,8 +12,8 @@ import (
 	"fmt"
 	"os/exec"
 	"reflect"
-	"sort"
 	"runtime/debug"
+	"sort"
 	"strings"
 	"sync"
 	"sync/atomic"
@@ -360,6 +360,7 @@ func features(in In, es []edge) []string {
 	for k := range m {
 		f = append(f, k)
 	}
+	sort.Strings(f)
 	return f
 }
 
